@@ -28,6 +28,13 @@ Theorem C11_cast_available :
 Proof. exact table_cast_available. Qed.
 Print Assumptions C11_cast_available.
 
+(* the same for user-declared named numeric types: named_rows lists the underlying (S, T) of every implicit conversion
+   prim -> named, named -> prim, named -> named that the compiler accepts (let and argument positions) *)
+Theorem C11_named_lossless :
+  forall s t, In (s, t) named_rows -> forall v, dom s v -> dom t v.
+Proof. exact table_named_lossless. Qed.
+Print Assumptions C11_named_lossless.
+
 Theorem C11_nonvacuous :
   In (PLet, I8, I16) implicit_rows /\ In (PArg, U32, I64) implicit_rows /\ In (PRet, F32, F64) implicit_rows.
 Proof. exact table_nonvacuous. Qed.
